@@ -198,4 +198,57 @@ def tracedCall {α ε : Type} (t : Table) (name : String) (dt : Rat) (o : Outcom
   | .ret v => (record t name dt, .ret v)
   | .raise e => (t, .raise e)
 
+/-! ### re-entrant calls: a traced function may be entered again before it returns (recursion,
+    callbacks).  Every invocation of the wrapper reads the clock into ITS OWN local variable when it
+    starts and subtracts it when the wrapped function returns. -/
+
+inductive Ev where
+  | enter (name : String)      -- a wrapper invocation starts: `t = time.time()`
+  | leave                      -- the innermost active invocation returns: sample `time.time() - t`
+  | tick (dt : Rat)            -- time passes
+deriving Repr
+
+/-- the implementation's view: an absolute clock and one start reading per active invocation -/
+structure NState where
+  now : Rat := 0
+  stack : List (String × Rat) := []      -- active invocations, innermost first, with their start readings
+  table : Table := []
+deriving Repr
+
+def nstep (s : NState) : Ev → NState
+  | .enter n => { s with stack := (n, s.now) :: s.stack }
+  | .leave =>
+    match s.stack with
+    | [] => s
+    | (n, t0) :: rest => { s with stack := rest, table := record s.table n (s.now - t0) }
+  | .tick dt => { s with now := s.now + dt }
+
+def nrun (s : NState) (evs : List Ev) : NState := evs.foldl nstep s
+
+/-- the specification's view: no clock at all; every active invocation accumulates the time that
+    passes while it is active (its own and that of the calls nested inside it) -/
+structure SState where
+  stack : List (String × Rat) := []      -- active invocations with the time elapsed since they started
+  table : Table := []
+deriving Repr
+
+def sstep (s : SState) : Ev → SState
+  | .enter n => { s with stack := (n, 0) :: s.stack }
+  | .leave =>
+    match s.stack with
+    | [] => s
+    | (n, el) :: rest => { s with stack := rest, table := record s.table n el }
+  | .tick dt => { s with stack := s.stack.map fun (n, el) => (n, el + dt) }
+
+def srun (s : SState) (evs : List Ev) : SState := evs.foldl sstep s
+
+/-- the events of a chain of nested calls `names[0]` → `names[1]` → … with the clock increments
+    `starts` (before entering level 1, 2, …) and `ends` (before leaving the innermost level, …, level 0) -/
+def chainEvents (names : List String) (starts ends : List Rat) : List Ev :=
+  match names with
+  | [] => []
+  | n0 :: rest =>
+    [Ev.enter n0] ++ (List.zip rest starts).flatMap (fun (n, dt) => [Ev.tick dt, Ev.enter n])
+      ++ ends.flatMap (fun dt => [Ev.tick dt, Ev.leave])
+
 end KV.Trace
